@@ -11,6 +11,7 @@ import (
 	"os"
 	"regexp"
 	"sort"
+	"strconv"
 	"strings"
 
 	"gldapverif/an"
@@ -245,7 +246,8 @@ type optVal struct {
 	kind   string // "paramAddr" | "param" | "const" | "conv"
 	arg    lin    // integer value of the argument (caller side), when integral
 	isInt  bool
-	nilArg bool // by-value pointer/interface argument that is the nil constant
+	nilArg bool   // by-value pointer/interface argument that is the nil constant
+	cst    string // exact constant for kind "const" ("true", "false", "3", "nil")
 }
 
 // pfSite is one potential run-time panic.
@@ -718,6 +720,23 @@ func (r *pfRun) findOptsValues() {
 	})
 }
 
+// optsDefaultSets: the defaults function of this function's option getter gives field f a non-zero default.
+func (r *pfRun) optsDefaultSets(f string) bool {
+	found := false
+	an.Instrs(r.fn, func(in ssa.Instruction) {
+		call, ok := in.(*ssa.Call)
+		if !ok {
+			return
+		}
+		if g := r.e.S.Getters[call.Common().StaticCallee()]; g != nil {
+			if _, has := g.Defaults[f]; has {
+				found = true
+			}
+		}
+	})
+	return found
+}
+
 // optsField: v is a load of field F of the options struct; returns F.
 func (r *pfRun) optsField(v ssa.Value) (string, bool) {
 	switch x := v.(type) {
@@ -779,7 +798,7 @@ func (r *pfRun) evalInt(v ssa.Value, st *pfState) lin {
 			}
 		}
 		if f, ok := r.optsField(x); ok && r.ctx != nil && r.ctx.known {
-			if ov, ok := r.ctx.fields[f]; ok && (ov.kind == "param" || ov.kind == "conv") && ov.isInt {
+			if ov, ok := r.ctx.fields[f]; ok && (ov.kind == "param" || ov.kind == "conv" || ov.kind == "const") && ov.isInt {
 				return ov.arg
 			}
 		}
@@ -843,6 +862,19 @@ func (r *pfRun) applyCond(st *pfState, cond ssa.Value, truth bool) bool {
 			return r.applyCond(st, x.X, !truth)
 		}
 		if x.Op == token.MUL {
+			// a bool field of the options struct under a known option context: set to a constant by an option
+			// of the call, or left at its zero value
+			if f, ok := r.optsField(x); ok && r.ctx != nil && r.ctx.known {
+				if bt, isB := x.Type().Underlying().(*types.Basic); isB && bt.Kind() == types.Bool {
+					if ov, set := r.ctx.fields[f]; set {
+						if ov.kind == "const" && (ov.cst == "true" || ov.cst == "false") {
+							return (ov.cst == "true") == truth
+						}
+					} else if !r.optsDefaultSets(f) {
+						return !truth // zero value: false
+					}
+				}
+			}
 			// boolean flag field, e.g. p.validated
 			if base, name, ok := an.LoadField(x); ok && truth {
 				if nt := an.StructOf(base.Type()); nt != nil {
@@ -1323,7 +1355,12 @@ func (r *pfRun) ctxFor(call *ssa.Call, st *pfState) *optCtx {
 			if s.Conditional {
 				return &optCtx{known: false, sig: "?"}
 			}
-			ov := optVal{kind: s.Kind}
+			ov := optVal{kind: s.Kind, cst: s.Const}
+			if s.Kind == "const" {
+				if k, err := strconv.ParseInt(s.Const, 10, 64); err == nil {
+					ov.arg, ov.isInt = lin{"", k, k >= 0}, true
+				}
+			}
 			if s.Kind == "param" || s.Kind == "paramAddr" || s.Kind == "conv" {
 				a := oc.Args[s.Param]
 				if isIntType(a.Type()) {
@@ -1338,7 +1375,7 @@ func (r *pfRun) ctxFor(call *ssa.Call, st *pfState) *optCtx {
 				}
 			}
 			ctx.fields[s.Field] = ov
-			sig = append(sig, fmt.Sprintf("%s=%s:%v", s.Field, s.Kind, ov.arg))
+			sig = append(sig, fmt.Sprintf("%s=%s:%v%s", s.Field, s.Kind, ov.arg, ov.cst))
 		}
 	}
 	sort.Strings(sig)
